@@ -585,7 +585,7 @@ class Interp:
             return bool(c)
         if c is None:
             return False
-        if isinstance(c, (int, float, str, tuple, list, dict, set, frozenset, range)):
+        if isinstance(c, (int, float, str, tuple, list, dict, set, frozenset, range, slice, bytes)) or c is Ellipsis:
             return bool(c)
         if isinstance(c, Poly) and c.is_const():
             return c.cval() != 0
